@@ -109,3 +109,7 @@ Definition c28_git_commit (tbl : list string) (s : state) : out :=
   OList [OSym "ok";
          OList (map (fun '(p, m, h) => OList [OBytes p; out_mode m; OBytes (content_of t (h_cid h))])
                     (sort_by (fun x => fst (fst x)) (s_tree_files s)))].
+
+(* git clean -f -d (no -x): empty untracked directories go, ignored ones stay *)
+Definition s_clean_empty_dirs (dirs : list (path * bool)) : list path :=
+  map fst (filter (fun d => snd d) dirs).
